@@ -43,7 +43,7 @@ def check_spec(acc, spec, tier):
             acc.c["runs"] += 1
             acc.c["propagator_executions"] += o.stats.get("PROPAGATOR_FILTER_NB", 0)
             acc.c["solutions_compared"] += len(o.solutions)
-            if o.abort in ("budget", "index", "heuristic"):
+            if o.abort in ("budget", "index", "heuristic", "skipped"):
                 acc.c["aborted_" + o.abort] += 1  # judged by C04 / C16
                 continue
             if o.abort:
